@@ -623,3 +623,10 @@ class ScriptedRNG:
 
     def __getattr__(self, name):
         return getattr(self.fallback, name)
+
+
+def known_hit(kid):
+    """A listed, unrepaired finding was reproduced inside a run: counted, the run goes on."""
+    w = _WORLD[0]
+    if w is not None:
+        w.stats["known:" + kid] += 1
